@@ -22,6 +22,10 @@ impl MeshEdges<'_> {
         }
         let i_bound = self.boundary_loops[0].as_slice();
 
+        // A single boundary loop is not enough: a surface with a handle, a second closed
+        // component or two parts which touch at one vertex can also have one
+        check_is_disk(self, i_bound)?;
+
         // Get the inner vertices
         let i_inner = inner_vertices(self, i_bound)?;
 
@@ -63,6 +67,52 @@ impl MeshEdges<'_> {
 
         Ok(uv.iter().map(|row| Point2::new(row[0], row[1])).collect())
     }
+}
+
+/// Check that the faces form one topological disk: the boundary loop passes through each of its
+/// vertices once, the Euler characteristic (vertices - edges + faces) is one, and all faces are
+/// connected across shared edges.
+fn check_is_disk(mesh: &MeshEdges, i_bound: &[u32]) -> Result<()> {
+    let n_faces = mesh.faces().len();
+
+    let unique_boundary: HashSet<u32> = i_bound.iter().cloned().collect();
+    if unique_boundary.len() != i_bound.len() {
+        return Err("Mesh boundary passes through a vertex more than once".into());
+    }
+
+    // Only vertices which are used by a face count
+    let used: HashSet<u32> = mesh.faces().iter().flatten().cloned().collect();
+    if used.len() + n_faces != mesh.edges.len() + 1 {
+        return Err("Mesh is not a topological disk".into());
+    }
+
+    // Union of the faces on either side of each edge
+    let mut parent: Vec<usize> = (0..n_faces).collect();
+    fn find(parent: &mut [usize], mut i: usize) -> usize {
+        while parent[i] != i {
+            parent[i] = parent[parent[i]];
+            i = parent[i];
+        }
+        i
+    }
+    let mut first_face: Vec<Option<usize>> = vec![None; mesh.edges.len()];
+    for (f, face_edges) in mesh.face_edges.iter().enumerate() {
+        for &e in face_edges {
+            if let Some(g) = first_face[e as usize] {
+                let a = find(&mut parent, f);
+                let b = find(&mut parent, g);
+                parent[a] = b;
+            } else {
+                first_face[e as usize] = Some(f);
+            }
+        }
+    }
+    let root = find(&mut parent, 0);
+    if (1..n_faces).any(|f| find(&mut parent, f) != root) {
+        return Err("Mesh is not a single connected surface".into());
+    }
+
+    Ok(())
 }
 
 fn inner_vertices(mesh: &MeshEdges, boundary_vertices: &[u32]) -> Result<Vec<u32>> {
